@@ -217,7 +217,7 @@ func (r *Reader) NextFrame() (hdr ws.Header, err error) {
 	if r.fragmented() {
 		if hdr.OpCode.IsControl() {
 			if cb := r.OnIntermediate; cb != nil {
-				err = cb(hdr, frame)
+				err = cb(hdr, &strictFrameReader{frame, &r.raw})
 			}
 			if err == nil {
 				// Ensure that src is empty.
@@ -249,6 +249,23 @@ func (r *Reader) NextFrame() (hdr ws.Header, err error) {
 	}
 
 	return hdr, err
+}
+
+// strictFrameReader wraps frame payload reader such that source EOF which
+// happens before all announced payload bytes are read is reported as
+// io.ErrUnexpectedEOF. That is, handlers of intermediate control frames can
+// not mistake shortened payload for a whole one.
+type strictFrameReader struct {
+	frame io.Reader
+	raw   *io.LimitedReader
+}
+
+func (s *strictFrameReader) Read(p []byte) (n int, err error) {
+	n, err = s.frame.Read(p)
+	if err == io.EOF && s.raw.N > 0 {
+		err = io.ErrUnexpectedEOF
+	}
+	return n, err
 }
 
 func (r *Reader) fragmented() bool {
